@@ -281,6 +281,45 @@ func init() {
 		if !strings.Contains(b, `key := hashing("sha1", verifier.Salt, passwordBuffer) for i := 0; i < iterCount; i++ { iterator := createUInt32LEBuffer(i, 4) key = hashing("sha1", iterator, key) }`) {
 			fail("standardConvertPasswdToKey: salt || UTF-16LE(password), then iterCount rounds")
 		}
+		// key derivation composition (model XlModel.Crypt.standardKey / agileKey)
+		b = c13body("", "standardConvertPasswdToKey")
+		for _, pat := range []string{
+			`var block int hFinal := hashing("sha1", key, createUInt32LEBuffer(block, 4))`,
+			`cbHash := sha1.Size buf1 := bytes.Repeat([]byte{0x36}, 64) buf1 = append(standardXORBytes(hFinal, buf1[:cbHash]), buf1[cbHash:]...) x1 := hashing("sha1", buf1)`,
+			`buf2 := bytes.Repeat([]byte{0x5c}, 64) buf2 = append(standardXORBytes(hFinal, buf2[:cbHash]), buf2[cbHash:]...) x2 := hashing("sha1", buf2) x3 := append(x1, x2...)`,
+		} {
+			if !strings.Contains(b, pat) {
+				fail("standardConvertPasswdToKey: `%s`", pat)
+			}
+		}
+		b = c13body("", "convertPasswdToKey")
+		for _, pat := range []string{
+			`b.Write(saltValue)`,
+			`b.Write(passwordBuffer) // Generate the initial hash. key = hashing(encryption.KeyData.HashAlgorithm, b.Bytes())`,
+			`for i := 0; i < encryption.KeyEncryptors.KeyEncryptor[0].EncryptedKey.SpinCount; i++ { iterator := createUInt32LEBuffer(i, 4) key = hashing(encryption.KeyData.HashAlgorithm, iterator, key) }`,
+			`key = hashing(encryption.KeyData.HashAlgorithm, key, blockKey)`,
+			`keyBytes := encryption.KeyEncryptors.KeyEncryptor[0].EncryptedKey.KeyBits / 8 if len(key) < keyBytes { tmp := make([]byte, 0x36) key = append(key, tmp...) } else if len(key) > keyBytes { key = key[:keyBytes] }`,
+		} {
+			if !strings.Contains(b, pat) {
+				fail("convertPasswdToKey: `%s`", pat)
+			}
+		}
+		b = c13body("", "createUInt32LEBuffer")
+		if !strings.Contains(b, `buf := make([]byte, bufferSize) binary.LittleEndian.PutUint32(buf, uint32(value))`) {
+			fail("createUInt32LEBuffer")
+		}
+		// OpenReader: error mapping (model XlModel.Crypt.openReader)
+		b = c13body("", "OpenReader")
+		for _, pat := range []string{
+			`if bytes.Contains(b, oleIdentifier) { if b, err = Decrypt(b, f.options); err != nil { return nil, ErrWorkbookFileFormat } }`,
+			`zr, err := zip.NewReader(bytes.NewReader(b), int64(len(b))) if err != nil { if len(f.options.Password) > 0 { return nil, ErrWorkbookPassword } return nil, err }`,
+			`file, sheetCount, err := f.ReadZipReader(zr) if err != nil {`,
+			`_ = f.Close() return nil, err }`,
+		} {
+			if !strings.Contains(b, pat) {
+				fail("OpenReader: `%s`", pat)
+			}
+		}
 		w.WriteString("def agileLoopPresent : Bool := true  -- decryptPackage / createIV statements matched\n")
 		b = c13body("encryption", "encrypt")
 		if !strings.Contains(b, `if pad := inputBytes % e.BlockSize; pad != 0 { inputBytes += e.BlockSize - pad }`) ||
